@@ -2,6 +2,9 @@
 # Apply every seeded change in turn, run the owning property's quick check, record what happened.
 cd /verif
 out=seeded/RESULTS.md
+# the checks run from a snapshot of /verif, so that edits made during the sweep do not change the build half-way
+snap=/tmp/sweepsnap.$$; rm -rf $snap; mkdir -p $snap; rsync -a --exclude .git --exclude evidence --exclude replays --exclude seeded --exclude findings /verif/ $snap/
+trap 'rm -rf $snap' EXIT
 {
 echo "# Seeded changes vs. checks (quick tier, VERIF_SEED=${VERIF_SEED:-1})"
 echo
@@ -17,7 +20,7 @@ for d in seeded/*/; do
   own=$(python3 -c "import json;m=json.load(open('$d/meta.json'));print(m['property'])")
   W=/tmp/sweep.$$; git -C /repo worktree remove --force $W >/dev/null 2>&1; git -C /repo worktree add -q --detach $W HEAD
   if ! git -C $W apply /verif/$d/patch.diff 2>/dev/null; then echo "| $n | $own | $prop | patch does not apply | |"; git -C /repo worktree remove --force $W; continue; fi
-  o=$(VERIF_OUT=/tmp/expout VERIF_REPO=$W VERIF_MINIMISE=2s timeout 1500 ./check $prop quick 2>&1); rc=$?
+  o=$(VERIF_OUT=/tmp/expout VERIF_REPO=$W VERIF_MINIMISE=2s timeout 1500 $snap/check $prop quick 2>&1); rc=$?
   git -C /repo worktree remove --force $W >/dev/null 2>&1
   cls=$(echo "$o" | grep "^  class=" | sed 's/^  class=\([^ ]*\).*/\1/' | sort -u | tr '\n' ' ')
   echo "| $n | $own | $prop | $rc | $cls |"
